@@ -7,30 +7,32 @@ import Paroxy.Proofs.HintsChars
 import Mathlib.Tactic.IntervalCases
 namespace Paroxy.Hints
 
+variable {O : CharOracle}
+
 /-! ### The scan on text without a match -/
 
-theorem nstep_cont_ne_tail {st s : NState} {c : Char} (h : nstep st c = .cont s) : s ≠ .tail := by
+theorem nstep_cont_ne_tail {st s : NState} {c : Char} (h : (nstep O) st c = .cont s) : s ≠ .tail := by
   unfold nstep at h
   split at h
   · cases h
   · cases st <;> simp only at h <;> (repeat' split at h) <;> (cases h <;> simp)
 
-theorem nstep_drop {st : NState} {c : Char} (h : nstep st c = .drop) : st = .tail := by
+theorem nstep_drop {st : NState} {c : Char} (h : (nstep O) st c = .drop) : st = .tail := by
   unfold nstep at h
   split at h
   · cases h
   · cases st <;> simp only at h <;> (repeat' split at h) <;> (cases h <;> rfl)
 
 /-- Text in which no attempt succeeds is copied as it is; a following `#` flushes what was pending. -/
-theorem normGo_noaccept (a : Str) : ∀ (st : NState) (pend R : Str), st ≠ .tail → scanAccepts st a = false →
-    normGo st pend (a ++ '#' :: R) = pend ++ a ++ normGo .hash ['#'] R := by
+theorem normGo_noaccept (a : Str) : ∀ (st : NState) (pend R : Str), st ≠ .tail → (scanAccepts O) st a = false →
+    (normGo O) st pend (a ++ '#' :: R) = pend ++ a ++ (normGo O) .hash ['#'] R := by
   induction a with
   | nil => intro st pend R _ _; simp [normGo, nstep]
   | cons c t ih =>
     intro st pend R hst hacc
     simp only [List.cons_append, normGo]
     simp only [scanAccepts] at hacc
-    cases hn : nstep st c with
+    cases hn : (nstep O) st c with
     | cont s =>
       simp only [hn] at hacc ⊢
       rw [ih s _ R (nstep_cont_ne_tail hn) hacc]; simp
@@ -49,15 +51,15 @@ theorem normGo_noaccept (a : Str) : ∀ (st : NState) (pend R : Str), st ≠ .ta
     | accept => simp [hn] at hacc
     | drop => exact absurd (nstep_drop hn) hst
 
-theorem normGo_noaccept_end (a : Str) : ∀ (st : NState) (pend : Str), st ≠ .tail → scanAccepts st a = false →
-    normGo st pend a = pend ++ a := by
+theorem normGo_noaccept_end (a : Str) : ∀ (st : NState) (pend : Str), st ≠ .tail → (scanAccepts O) st a = false →
+    (normGo O) st pend a = pend ++ a := by
   induction a with
   | nil => intro st pend _ _; simp [normGo]
   | cons c t ih =>
     intro st pend hst hacc
     simp only [normGo]
     simp only [scanAccepts] at hacc
-    cases hn : nstep st c with
+    cases hn : (nstep O) st c with
     | cont s => simp only [hn] at hacc ⊢; rw [ih s _ (nstep_cont_ne_tail hn) hacc]; simp
     | reset => simp only [hn] at hacc ⊢; rw [ih .idle [] (by simp) hacc]; simp
     | hash =>
@@ -72,19 +74,19 @@ theorem normGo_noaccept_end (a : Str) : ∀ (st : NState) (pend : Str), st ≠ .
     | accept => simp [hn] at hacc
     | drop => exact absurd (nstep_drop hn) hst
 
-theorem nstep_hash_sp : nstep .hash ' ' = .cont .hash := by rfl
-theorem nstep_after_sp : nstep .after ' ' = .cont .after := by rfl
-theorem nstep_tail_sp : nstep .tail ' ' = .drop := by rfl
-theorem nstep_idle_sp : nstep .idle ' ' = .reset := by rfl
-theorem nstep_letters_sp (k : Nat) : nstep (.letters k) ' ' = if k < 10 then .reset else .cont .after := by
+theorem nstep_hash_sp : (nstep O) .hash ' ' = .cont .hash := by rfl
+theorem nstep_after_sp : (nstep O) .after ' ' = .cont .after := by rfl
+theorem nstep_tail_sp : (nstep O) .tail ' ' = .drop := by rfl
+theorem nstep_idle_sp : (nstep O) .idle ' ' = .reset := by rfl
+theorem nstep_letters_sp (k : Nat) : (nstep O) (.letters k) ' ' = if k < 10 then .reset else .cont .after := by
   by_cases h : k < 10
   · have : letterAt k ' ' = false := by
-      interval_cases k <;> decide
+      interval_cases k <;> cdec
     simp [nstep, h, this]
   · simp [nstep, h, isSpaceRe]
 
 /-- Spaces never complete a match. -/
-theorem scanAccepts_replicate (n : Nat) : ∀ st, scanAccepts st (List.replicate n ' ') = false := by
+theorem scanAccepts_replicate (n : Nat) : ∀ st, (scanAccepts O) st (List.replicate n ' ') = false := by
   induction n with
   | zero => intro st; rfl
   | succ n ih =>
@@ -97,43 +99,43 @@ theorem scanAccepts_replicate (n : Nat) : ∀ st, scanAccepts st (List.replicate
     | after => simp only [nstep_after_sp]; exact ih _
     | tail => simp only [nstep_tail_sp]; exact ih _
 
-theorem scanAccepts_spaces (a : Str) (n : Nat) : ∀ st, scanAccepts st a = false →
-    scanAccepts st (a ++ List.replicate n ' ') = false := by
+theorem scanAccepts_spaces (a : Str) (n : Nat) : ∀ st, (scanAccepts O) st a = false →
+    (scanAccepts O) st (a ++ List.replicate n ' ') = false := by
   induction a with
   | nil => intro st _; exact scanAccepts_replicate n st
   | cons c t ih =>
     intro st h
     simp only [List.cons_append, scanAccepts] at h ⊢
-    cases hn : nstep st c <;> simp only [hn] at h ⊢ <;> first | exact ih _ h | cases h
+    cases hn : (nstep O) st c <;> simp only [hn] at h ⊢ <;> first | exact ih _ h | cases h
 
 /-- Without `#` nothing ever starts. -/
-theorem normGo_idle_noHash (X : Str) (h : '#' ∉ X) : normGo .idle [] X = X := by
+theorem normGo_idle_noHash (X : Str) (h : '#' ∉ X) : (normGo O) .idle [] X = X := by
   induction X with
   | nil => rfl
   | cons c t ih =>
     have hc : c ≠ '#' := fun e => h (by simp [e])
     simp [normGo, nstep, hc, ih (fun e => h (by simp [e]))]
 
-theorem normGo_tail_noHash (X : Str) (h : '#' ∉ X) : normGo .tail [] X = X.dropWhile isSpaceRe := by
+theorem normGo_tail_noHash (X : Str) (h : '#' ∉ X) : (normGo O) .tail [] X = X.dropWhile (isSpaceRe O) := by
   induction X with
   | nil => rfl
   | cons c t ih =>
     have hc : c ≠ '#' := fun e => h (by simp [e])
     have ht : '#' ∉ t := fun e => h (by simp [e])
-    by_cases hs : isSpaceRe c = true
+    by_cases hs : (isSpaceRe O) c = true
     · simp [normGo, nstep, hc, hs, ih ht]
     · simp [normGo, nstep, hc, hs, normGo_idle_noHash t ht]
 
 /-! ### The scan on a spelled marker -/
 
 theorem letterAt_spellAt (caps : Nat → Bool) (k : Nat) (hk : k < 10) : letterAt k (spellAt caps k) = true := by
-  interval_cases k <;> (simp only [letterAt, spellAt, pletters]; cases caps _ <;> decide)
+  interval_cases k <;> (simp only [letterAt, spellAt, pletters]; cases caps _ <;> cdec)
 
 theorem spellAt_ne_hash (caps : Nat → Bool) (k : Nat) (hk : k < 10) : spellAt caps k ≠ '#' := by
-  interval_cases k <;> (simp only [spellAt, pletters]; cases caps _ <;> decide)
+  interval_cases k <;> (simp only [spellAt, pletters]; cases caps _ <;> cdec)
 
 theorem normGo_hash_spaces (n : Nat) (pend R : Str) :
-    normGo .hash pend (List.replicate n ' ' ++ R) = normGo .hash (pend ++ List.replicate n ' ') R := by
+    (normGo O) .hash pend (List.replicate n ' ' ++ R) = (normGo O) .hash (pend ++ List.replicate n ' ') R := by
   induction n generalizing pend with
   | zero => simp
   | succ n ih =>
@@ -142,8 +144,8 @@ theorem normGo_hash_spaces (n : Nat) (pend R : Str) :
     rw [ih]; simp
 
 theorem normGo_letters (caps : Nat → Bool) (m : Nat) : ∀ (k : Nat) (pend R : Str), 1 ≤ k → k + m = 10 →
-    normGo (.letters k) pend ((List.range' k m).map (spellAt caps) ++ R) =
-      normGo (.letters 10) (pend ++ (List.range' k m).map (spellAt caps)) R := by
+    (normGo O) (.letters k) pend ((List.range' k m).map (spellAt caps) ++ R) =
+      (normGo O) (.letters 10) (pend ++ (List.range' k m).map (spellAt caps)) R := by
   induction m with
   | zero => intro k pend R _ hk; simp at hk; subst hk; simp
   | succ m ih =>
@@ -154,7 +156,7 @@ theorem normGo_letters (caps : Nat → Bool) (m : Nat) : ∀ (k : Nat) (pend R :
     rw [ih (k + 1) _ R (by omega) (by omega)]; simp
 
 theorem normGo_after_spaces (n : Nat) (pend R : Str) :
-    normGo .after pend (List.replicate n ' ' ++ ':' :: R) = m14 ++ normGo .tail [] R := by
+    (normGo O) .after pend (List.replicate n ' ' ++ ':' :: R) = m14 ++ (normGo O) .tail [] R := by
   induction n generalizing pend with
   | zero => simp [normGo, nstep]
   | succ n ih =>
@@ -163,13 +165,13 @@ theorem normGo_after_spaces (n : Nat) (pend R : Str) :
 
 /-- A marker in any tolerated spelling is replaced by the normalised one. -/
 theorem normGo_marker (ms : MarkerStyle) (R : Str) :
-    normGo .hash ['#'] (List.replicate ms.sp1 ' ' ++ ((List.range 10).map (spellAt ms.caps) ++
-      (List.replicate ms.sp2 ' ' ++ ':' :: R))) = m14 ++ normGo .tail [] R := by
+    (normGo O) .hash ['#'] (List.replicate ms.sp1 ' ' ++ ((List.range 10).map (spellAt ms.caps) ++
+      (List.replicate ms.sp2 ' ' ++ ':' :: R))) = m14 ++ (normGo O) .tail [] R := by
   rw [normGo_hash_spaces]
-  have hr : List.range 10 = 0 :: List.range' 1 9 := by decide
-  have hns : isSpaceRe (spellAt ms.caps 0) = false := by
-    simp only [spellAt, pletters]; cases ms.caps 0 <;> decide
-  have hst : nstep .hash (spellAt ms.caps 0) = .cont (.letters 1) := by
+  have hr : List.range 10 = 0 :: List.range' 1 9 := by cdec
+  have hns : (isSpaceRe O) (spellAt ms.caps 0) = false := by
+    simp only [spellAt, pletters]; cases ms.caps 0 <;> cdec
+  have hst : (nstep O) .hash (spellAt ms.caps 0) = .cont (.letters 1) := by
     simp [nstep, spellAt_ne_hash ms.caps 0 (by omega), letterAt_spellAt ms.caps 0 (by omega), hns]
   simp only [hr, List.map_cons, List.cons_append, normGo, hst]
   rw [normGo_letters ms.caps 9 1 _ _ (by omega) (by omega)]
@@ -180,7 +182,7 @@ theorem normGo_marker (ms : MarkerStyle) (R : Str) :
       show ¬ (10 < 10) by omega, if_false]
     exact normGo_after_spaces n _ R
 
-theorem normGo_tail_spaces (n : Nat) (R : Str) : normGo .tail [] (List.replicate n ' ' ++ R) = normGo .tail [] R := by
+theorem normGo_tail_spaces (n : Nat) (R : Str) : (normGo O) .tail [] (List.replicate n ' ' ++ R) = (normGo O) .tail [] R := by
   induction n with
   | zero => simp
   | succ n ih =>
@@ -189,20 +191,20 @@ theorem normGo_tail_spaces (n : Nat) (R : Str) : normGo .tail [] (List.replicate
 
 /-! ### No look-alike in the code implies no exact marker -/
 
-theorem scanAccepts_m13 (st : NState) (suf : Str) : scanAccepts st (m13 ++ suf) = true := by
-  have h0 : nstep st '#' = .hash := by simp [nstep]
+theorem scanAccepts_m13 (st : NState) (suf : Str) : (scanAccepts O) st (m13 ++ suf) = true := by
+  have h0 : (nstep O) st '#' = .hash := by simp [nstep]
   simp only [m13, List.cons_append, List.nil_append, scanAccepts, h0]
   simp [scanAccepts, nstep, isSpaceRe, letterAt, pletters]
 
-theorem scanAccepts_infix (pre : Str) : ∀ st suf, scanAccepts st (pre ++ (m13 ++ suf)) = true := by
+theorem scanAccepts_infix (pre : Str) : ∀ st suf, (scanAccepts O) st (pre ++ (m13 ++ suf)) = true := by
   induction pre with
   | nil => intro st suf; exact scanAccepts_m13 st suf
   | cons c t ih =>
     intro st suf
     simp only [List.cons_append, scanAccepts]
-    cases nstep st c <;> simp only <;> first | exact ih _ _ | rfl
+    cases (nstep O) st c <;> simp only <;> first | exact ih _ _ | rfl
 
-theorem noM13_of_noLoose (a : Str) (h : noLoose a = true) : noM13 a = true := by
+theorem noM13_of_noLoose (a : Str) (h : (noLoose O) a = true) : noM13 a = true := by
   simp only [noM13, Bool.not_eq_true', ← Bool.not_eq_true, hasInfix_iff]
   rintro ⟨pre, suf, rfl⟩
   simp only [noLoose, Bool.not_eq_true'] at h
@@ -238,8 +240,8 @@ theorem renderHints_noHash (hs : List Hint) (hl : ∀ h ∈ hs, '#' ∉ h.label)
     exact ⟨by simp [List.mem_replicate], renderHint_noHash h (hl h (by simp)),
       ih (fun x hx => hl x (List.mem_cons_of_mem _ hx))⟩
 
-theorem dropWhile_spaces_word (n : Nat) (w R : Str) (hne : w ≠ []) (hw : ∀ c ∈ w, isSpacePy c = false) :
-    (List.replicate n ' ' ++ (w ++ R)).dropWhile isSpaceRe = w ++ R := by
+theorem dropWhile_spaces_word (n : Nat) (w R : Str) (hne : w ≠ []) (hw : ∀ c ∈ w, (isSpacePy O) c = false) :
+    (List.replicate n ' ' ++ (w ++ R)).dropWhile (isSpaceRe O) = w ++ R := by
   apply dropWhile_spaces_re
   intro c hc
   cases w with
@@ -249,9 +251,9 @@ theorem dropWhile_spaces_word (n : Nat) (w R : Str) (hne : w ≠ []) (hw : ∀ c
     exact not_isSpacePy_of _ (hw _ (by simp))
 
 /-- Hygiene of one line for the free spelling of the marker. -/
-structure LooseOk (l : Line) : Prop where
-  code : ∀ c, l = .code c → noLoose c.code = true ∧ (∀ h ∈ c.hints, '#' ∉ h.label ∧ Clean h.label)
-  iso : ∀ n L, l = .isolated n L → '#' ∉ L ∧ Clean L
+structure LooseOk (O : CharOracle) (l : Line) : Prop where
+  code : ∀ c, l = .code c → (noLoose O) c.code = true ∧ (∀ h ∈ c.hints, '#' ∉ h.label ∧ (Clean O) h.label)
+  iso : ∀ n L, l = .isolated n L → '#' ∉ L ∧ (Clean O) L
 
 theorem renderMarker_eq (ms : MarkerStyle) (R : Str) :
     renderMarker ms ++ R = '#' :: (List.replicate ms.sp1 ' ' ++ ((List.range 10).map (spellAt ms.caps) ++
@@ -260,18 +262,18 @@ theorem renderMarker_eq (ms : MarkerStyle) (R : Str) :
 
 /-- **Normalisation of a line**: whatever the tolerated spelling of its marker, the line becomes
 the normalised rendering of the same code and hints. -/
-theorem normLine_renderLineS (l : Line) (ms : MarkerStyle) (ok : LooseOk l) :
-    normLine (renderLineS (l, ms)) = renderLine (gap0 l) := by
+theorem normLine_renderLineS (l : Line) (ms : MarkerStyle) (ok : (LooseOk O) l) :
+    (normLine O) (renderLineS (l, ms)) = renderLine (gap0 l) := by
   cases l with
   | code c =>
     obtain ⟨hcode, hh⟩ := ok.code c rfl
-    have hacc : scanAccepts .idle c.code = false := by simpa [noLoose] using hcode
+    have hacc : (scanAccepts O) .idle c.code = false := by simpa [noLoose] using hcode
     cases hhs : c.hints with
     | nil =>
       simp only [renderLineS, hhs, if_true, gap0, renderLine, renderCode]
       simpa [normLine] using normGo_noaccept_end c.code .idle [] (by simp) hacc
     | cons h1 rest =>
-      have hlab : ∀ h ∈ h1 :: rest, '#' ∉ h.label ∧ Clean h.label := by rw [← hhs]; exact hh
+      have hlab : ∀ h ∈ h1 :: rest, '#' ∉ h.label ∧ (Clean O) h.label := by rw [← hhs]; exact hh
       have hdrop : (renderHints (h1 :: rest)).drop 1 =
           List.replicate h1.style.gap ' ' ++ (renderHint h1 ++ renderHints rest) := by
         rw [renderHints_cons, List.replicate_succ]; rfl
